@@ -80,6 +80,11 @@ fn check(src: &str, inputs: &Inputs, n: u64) -> Out {
     // VM words == WASM words (zero-extended) after every sample
     let wa = exec::run_wasm(src, inputs, &RunOpts { n, sched: false, want_state: true, want_counts: false, want_trace: false });
     if let Exec::Ran(b) = wa {
+        // a dsp call that trapped leaves the WASM state region half-updated: report the trap
+        // itself (the words after it describe nothing)
+        if let Some((t, rc)) = b.bad_rc.first() {
+            fail!("wasm-trap", "WASM run_dsp returned {rc} at sample {t}; the state words cannot be compared");
+        }
         for (t, (x, y)) in a.state.iter().zip(b.state.iter()).enumerate() {
             if y.len() > total {
                 fail!("wasm-state-larger-than-layout", "sample {t}: WASM state has {} words, the published layout {total}", y.len());
